@@ -4,7 +4,8 @@ import ERP.Total
 
 `ERP/Gen/Arith.lean` is regenerated on every run from the statements of
 `AxisPosition.logicalToNative`, `.nativeToLogical`, `.setLogicalOffsetPosition`, `.setHomeOffset` and
-`GcodeHandlers.computeArcCenterOffsets` (assignments, augmented assignments, `if`/`else`, early
+`GcodeHandlers.computeArcCenterOffsets`, and of `GcodeHandlers.planArc` (everything before its loop, and
+the loop body) (assignments, augmented assignments, `if`/`else`, early
 `return`, conditional expressions, `and`/`or`/`^`, comparisons, `+ - * /`, `abs`, `math.sqrt`,
 `math.hypot`).  These theorems state that the total model (`ERP/Total.lean`) — about which C03,
 C08, C16 are proved, including the two known findings K-D15 and K-D10 that live in exactly these
@@ -47,5 +48,21 @@ theorem gen_setHomeOffset (a : Axis α) (v : α) :
 theorem gen_arcCenterOffsets (p : Position α) (endX endY radius : α) (cw : Bool) :
     T.computeArcCenterOffsets p endX endY radius cw =
       Gen.arcCenterOffsets (T.n2l p.x) (T.n2l p.y) endX endY radius cw := rfl
+
+/-- `planArc`: the model's sampling is the source's set-up followed by `numSegments − 1` iterations
+of the source's loop body and the commanded end point -/
+theorem gen_planArc (p : Position α) (endX endY i j : α) (cw : Bool) :
+    T.planArc p endX endY i j cw =
+      (let t := Gen.planArcSetup (T.n2l p.x) (T.n2l p.y) endX endY i j cw
+       ERP.arcLoop t.1 t.2.1 t.2.2.1 t.2.2.2.2.2.2 (t.2.2.2.2.1 - 1) t.2.2.2.2.2.1 []) ++ [(endX, endY)] := rfl
+
+theorem gen_planArc_travel (p : Position α) (endX endY i j : α) (cw : Bool) :
+    T.angularTravel (T.n2l p.x) (T.n2l p.y) endX endY i j cw =
+      (Gen.planArcSetup (T.n2l p.x) (T.n2l p.y) endX endY i j cw).2.2.2.1 := rfl
+
+theorem gen_arcLoop_step (cx cy r inc angle : α) (n : Nat) (acc : List (α × α)) :
+    ERP.arcLoop cx cy r inc (n + 1) angle acc =
+      ERP.arcLoop cx cy r inc n (Gen.planArcStep cx cy r inc angle).1
+        (acc ++ [((Gen.planArcStep cx cy r inc angle).2.1, (Gen.planArcStep cx cy r inc angle).2.2)]) := rfl
 
 end ERP
